@@ -44,9 +44,14 @@ def check(lane, pid):
     for eng, props in (("opseq", E1), ("sched", E2)):
         if pid not in props:
             continue
-        rc, out = sh("cargo build --release --offline 2>&1 | tail -3", cwd=f"{lane}/engines/{eng}")
+        for attempt in range(3):
+            rc, out = sh("cargo build --release --offline 2>&1 | tail -12", cwd=f"{lane}/engines/{eng}")
+            if "Finished" in out or "signal: 9" not in out:
+                break
+            # the compiler was killed (memory pressure on the shared machine): wait and try again
+            import time; time.sleep(60)
         if "Finished" not in out:
-            return 2, "build failed: " + out[-300:]
+            return 2, "build failed: " + out[-600:]
         rc, out = sh(f"VERIF_EVIDENCE_OUT={lane}/root/evidence/{pid}.{eng}.json timeout 1500 {lane}/target/{eng}/release/{eng} {pid} --tier quick 2>&1 | grep -v -E '^Test deadlocked, and|^Task failed, serializing schedule|^test panicked in task'")
         out_all += out
         if rc not in (0, 1) and "VIOLATION" not in out:
